@@ -1,6 +1,6 @@
 (* C09 - Writing never alters its input and is deterministic.
    Only statements closed by `exact`, with Print Assumptions.  Model: model/Store.v (heap), model/Iso.v (writers). *)
-From Coq Require Import List ZArith Bool.
+From Coq Require Import List ZArith Bool Permutation.
 From PV Require Import lib.Sx lib.Result model.Store model.Iso
      spec.SpecIso proofs.StoreFacts proofs.DeepcopyFacts proofs.IsoFacts proofs.RegionFacts proofs.OracleFacts
      proofs.IsoExamples.
@@ -109,6 +109,38 @@ Theorem C09_same_snapshot_same_result : forall c k o i1 i2 st1 st2 s1 s2,
 Proof. exact write_same_snapshot_same_result. Qed.
 Print Assumptions C09_same_snapshot_same_result.
 
+(* the fuel escape is dead on well-formed stores: the writers' deepcopy gets one unit of fuel more than the store has
+   objects, which always suffices (measure: original objects not yet memoised) *)
+Theorem C09_deepcopy_succeeds : forall st v, wf st -> below (length st) v ->
+  exists st' v', deepcopy (S (length st)) st v = Some (st', v').
+Proof. exact deepcopy_succeeds. Qed.
+Print Assumptions C09_deepcopy_succeeds.
+
+Theorem C09_write_never_out_of_fuel : forall c k o i st s,
+  wf st -> below (length st) s -> wr_result (write c k o i st s) <> Err EOutOfFuel.
+Proof. exact write_never_out_of_fuel. Qed.
+Print Assumptions C09_write_never_out_of_fuel.
+
+(* UNCONDITIONAL: on a well-formed store the result of write() IS output_of (kind, options, snapshot) *)
+Theorem C09_write_result_is_output_of : forall c k o i st s,
+  fix15 c = true -> wf st -> below (length st) s ->
+  wr_result (write c k o i st s) = output_of k o (snap FUEL st s).
+Proof. exact write_result_is_output_of. Qed.
+Print Assumptions C09_write_result_is_output_of.
+
+Theorem C09_same_snapshot_same_result_wf : forall c k o i1 i2 st1 st2 s1 s2,
+  fix15 c = true -> wf st1 -> wf st2 -> below (length st1) s1 -> below (length st2) s2 ->
+  snap FUEL st1 s1 = snap FUEL st2 s2 ->
+  wr_result (write c k o i1 st1 s1) = wr_result (write c k o i2 st2 s2).
+Proof. exact write_same_snapshot_same_result_wf. Qed.
+Print Assumptions C09_same_snapshot_same_result_wf.
+
+Theorem C09_write_history_independent_wf : forall c ops w k o wi si s,
+  fix15 c = true -> wf_world w -> forallb is_write ops = true -> nth_error (w_sets w) si = Some s ->
+  wr_result (write c k o wi (w_st (run_world c w ops)) s) = output_of k o (snap FUEL (w_st w) s).
+Proof. exact write_history_independent_wf. Qed.
+Print Assumptions C09_write_history_independent_wf.
+
 (* output (history ++ [write]) = output [write] *)
 Theorem C09_write_history_independent : forall c ops w k o wi si s,
   fix15 c = true -> wf_world w -> forallb is_write ops = true ->
@@ -124,10 +156,26 @@ Print Assumptions C09_write_history_independent.
    nothing - no write changes any set (clause 1), equal (writer, options, snapshot) give equal results (clause 2).
    With the per-run correspondence (implementation observations = model observations) this composes to the property. *)
 Theorem C09_model_meets_oracle : forall c ops,
-  repaired c -> fix15 c = true -> no_fuel_exhaustion c world0 ops ->
+  repaired c -> fix15 c = true ->
   check_hist tree tree_eqb TCut true false 0 [] [] (model_obs c world0 ops) = [].
 Proof. exact model_meets_ok_c09. Qed.
 Print Assumptions C09_model_meets_oracle.
+
+(* "no set iteration", explicit: every container the DFXP region bookkeeping iterates takes its enumeration order as a
+   parameter.  The one hash SET (_assigned_region_ids, membership tests only) may enumerate in ANY order: same document *)
+Theorem C09_regions_independent_of_set_enumeration : forall enum o t,
+  (forall l, Permutation (enum l) l) ->
+  dfxp_regions (fun l => l) enum o t = dfxp_regions (fun l => l) (fun l => l) o t.
+Proof. exact regions_independent_of_set_enumeration. Qed.
+Print Assumptions C09_regions_independent_of_set_enumeration.
+
+(* ... the container of unique layouts must NOT be a hash set: some enumeration order changes the region ids (the code
+   uses the insertion-ordered _OrderedSet; the mutant C09_orderedset_to_set makes the check fail) *)
+Theorem C09_unique_layout_order_matters_refuted :
+  exists iter codes, (forall l, Permutation (iter l) l) /\
+    region_ids iter codes <> region_ids (fun l => l) codes.
+Proof. exact regions_depend_on_unique_layout_order_refuted. Qed.
+Print Assumptions C09_unique_layout_order_matters_refuted.
 
 (* before the open_span repair the statement is false of the faithful model: witness = the replayed history *)
 Theorem C09_open_span_leak_refuted :
@@ -189,9 +237,6 @@ Example C09_example_history :
   = [doc_a; doc_b; positioned] /\
   (length (w_st shared_world) < length (w_st (run_world fixed shared_world some_writes)))%nat.
 Proof. exact history_theorem_instance. Qed.
-
-Example C09_example_no_fuel_exhaustion : no_fuel_exhaustion fixed world0 small_history.
-Proof. exact small_history_no_fuel_exhaustion. Qed.
 
 Example C09_example_oracle_reports_leak :
   check_hist tree tree_eqb TCut true false 0 [] [] (model_obs (mkCfg true true false) world0 (hist15 W_DFXP))
